@@ -79,8 +79,9 @@ Inductive re :=
 | RStar (greedy : bool) (a : re)
 | RGrp (i : nat) (a : re).
 
-(* captures, newest first: group number, start and end position *)
-Definition caps := list (nat * (nat * nat)).
+(* captures, newest first: group number, start and end position (positions are binary numbers: the progress test
+   of the quantifier compares two of them on every iteration) *)
+Definition caps := list (nat * (N * N)).
 
 Definition is_nl (x : ch) : bool := N.eqb (cp x) 10.
 
@@ -88,42 +89,42 @@ Section Matcher.
   Variable ic : bool.
   Variable R : Type.
   (* a continuation gets the position reached, the characters left and the captures; None = no match this way *)
-  Definition kont := nat -> list ch -> caps -> option R.
+  Definition kont := N -> list ch -> caps -> option R.
 
   (* the unbounded quantifier around [body]; n = iterations still allowed (starts at the number of characters left);
      an iteration that consumes nothing is abandoned *)
   Section Star.
-    Variable body : nat -> list ch -> caps -> kont -> option R.
+    Variable body : N -> list ch -> caps -> kont -> option R.
     Variable g : bool.
     Variable k : kont.
-    Fixpoint star_loop (n : nat) (p : nat) (s : list ch) (c : caps) {struct n} : option R :=
+    Fixpoint star_loop (n : nat) (p : N) (s : list ch) (c : caps) {struct n} : option R :=
       match n with
       | 0 => k p s c
       | S n' =>
           if g then
-            match body p s c (fun p' s' c' => if p <? p' then star_loop n' p' s' c' else None) with
+            match body p s c (fun p' s' c' => if N.ltb p p' then star_loop n' p' s' c' else None) with
             | Some v => Some v
             | None => k p s c
             end
           else
             match k p s c with
             | Some v => Some v
-            | None => body p s c (fun p' s' c' => if p <? p' then star_loop n' p' s' c' else None)
+            | None => body p s c (fun p' s' c' => if N.ltb p p' then star_loop n' p' s' c' else None)
             end
       end.
   End Star.
 
   (* [m r p s c k]: match [r] at position [p] ([s] = subject[p:]), then go on with [k]; alternatives are tried in
      Python's order and the first one whose continuation succeeds wins *)
-  Fixpoint m (r : re) (p : nat) (s : list ch) (c : caps) (k : kont) {struct r} : option R :=
+  Fixpoint m (r : re) (p : N) (s : list ch) (c : caps) (k : kont) {struct r} : option R :=
     match r with
     | REps => k p s c
     | RChr cl =>
         match s with
-        | x :: s' => if cls_match ic cl x then k (S p) s' c else None
+        | x :: s' => if cls_match ic cl x then k (N.succ p) s' c else None
         | [] => None
         end
-    | RBol => if p =? 0 then k p s c else None
+    | RBol => if N.eqb p 0 then k p s c else None
     | REol =>           (* "$" without MULTILINE: at the end, or before a final newline *)
         match s with
         | [] => k p s c
@@ -152,7 +153,7 @@ Section Matcher.
 
   (* ---- the same matcher counting its steps: one step per visit of a regex node (and per iteration of a
      quantifier); the result component is [m]'s (Proofs/C12_regex.v: mc_result) ---- *)
-  Definition kontc := nat -> list ch -> caps -> nat * option R.
+  Definition kontc := N -> list ch -> caps -> nat * option R.
   Definition tick (x : nat * option R) : nat * option R := (S (fst x), snd x).
   (* try x, and y only when x fails *)
   Definition orelse (x : nat * option R) (y : unit -> nat * option R) : nat * option R :=
@@ -162,29 +163,29 @@ Section Matcher.
     end.
 
   Section StarC.
-    Variable body : nat -> list ch -> caps -> kontc -> nat * option R.
+    Variable body : N -> list ch -> caps -> kontc -> nat * option R.
     Variable g : bool.
     Variable k : kontc.
-    Fixpoint star_loopc (n : nat) (p : nat) (s : list ch) (c : caps) {struct n} : nat * option R :=
+    Fixpoint star_loopc (n : nat) (p : N) (s : list ch) (c : caps) {struct n} : nat * option R :=
       match n with
       | 0 => tick (k p s c)
       | S n' =>
           let again := fun _ : unit =>
-            body p s c (fun p' s' c' => if p <? p' then star_loopc n' p' s' c' else (0, None)) in
+            body p s c (fun p' s' c' => if N.ltb p p' then star_loopc n' p' s' c' else (0, None)) in
           if g then tick (orelse (again tt) (fun _ => k p s c))
           else tick (orelse (k p s c) again)
       end.
   End StarC.
 
-  Fixpoint mc (r : re) (p : nat) (s : list ch) (c : caps) (k : kontc) {struct r} : nat * option R :=
+  Fixpoint mc (r : re) (p : N) (s : list ch) (c : caps) (k : kontc) {struct r} : nat * option R :=
     match r with
     | REps => tick (k p s c)
     | RChr cl =>
         match s with
-        | x :: s' => if cls_match ic cl x then tick (k (S p) s' c) else (1, None)
+        | x :: s' => if cls_match ic cl x then tick (k (N.succ p) s' c) else (1, None)
         | [] => (1, None)
         end
-    | RBol => if p =? 0 then tick (k p s c) else (1, None)
+    | RBol => if N.eqb p 0 then tick (k p s c) else (1, None)
     | REol =>
         match s with
         | [] => tick (k p s c)
@@ -207,55 +208,55 @@ Arguments tick {R} x.
 Arguments orelse {R} x y.
 
 (* pattern.match(subject): anchored at position 0; result = end position and captures *)
-Definition re_match (ic : bool) (r : re) (s : list ch) : option (nat * caps) :=
-  m ic r 0 s [] (fun p _ c => Some (p, c)).
+Definition re_match (ic : bool) (r : re) (s : list ch) : option (N * caps) :=
+  m ic r 0%N s [] (fun p _ c => Some (p, c)).
 
 (* pattern.fullmatch(subject) *)
-Definition re_fullmatch (ic : bool) (r : re) (s : list ch) : option (nat * caps) :=
-  m ic r 0 s [] (fun p s' c => match s' with [] => Some (p, c) | _ => None end).
+Definition re_fullmatch (ic : bool) (r : re) (s : list ch) : option (N * caps) :=
+  m ic r 0%N s [] (fun p s' c => match s' with [] => Some (p, c) | _ => None end).
 
 (* pattern.search(subject) from position p: leftmost start, result = (start, end, captures) *)
-Fixpoint re_search_from (ic : bool) (r : re) (p : nat) (s : list ch) : option (nat * nat * caps) :=
+Fixpoint re_search_from (ic : bool) (r : re) (p : N) (s : list ch) : option (N * N * caps) :=
   match m ic r p s [] (fun e _ c => Some (p, e, c)) with
   | Some v => Some v
   | None => match s with
             | [] => None
-            | _ :: s' => re_search_from ic r (S p) s'
+            | _ :: s' => re_search_from ic r (N.succ p) s'
             end
   end.
-Definition re_search (ic : bool) (r : re) (s : list ch) : option (nat * nat * caps) := re_search_from ic r 0 s.
+Definition re_search (ic : bool) (r : re) (s : list ch) : option (N * N * caps) := re_search_from ic r 0%N s.
 
 (* pattern.sub("", subject): every non-overlapping match, leftmost first, is deleted.  [skip] = characters of the
    current match still to be dropped.  (An empty match deletes nothing.) *)
-Fixpoint re_sub_del_from (ic : bool) (r : re) (p : nat) (skip : nat) (s : list ch) : list ch :=
+Fixpoint re_sub_del_from (ic : bool) (r : re) (p : N) (skip : nat) (s : list ch) : list ch :=
   match skip with
   | S k => match s with
            | [] => []
-           | _ :: s' => re_sub_del_from ic r (S p) k s'
+           | _ :: s' => re_sub_del_from ic r (N.succ p) k s'
            end
   | 0 =>
       match m ic r p s [] (fun e _ _ => Some e) with
       | Some e =>
-          match e - p, s with
-          | S k, _ :: s' => re_sub_del_from ic r (S p) k s'
+          match N.to_nat (e - p), s with
+          | S k, _ :: s' => re_sub_del_from ic r (N.succ p) k s'
           | _, [] => []
-          | 0, x :: s' => x :: re_sub_del_from ic r (S p) 0 s'
+          | 0, x :: s' => x :: re_sub_del_from ic r (N.succ p) 0 s'
           end
       | None => match s with
                 | [] => []
-                | x :: s' => x :: re_sub_del_from ic r (S p) 0 s'
+                | x :: s' => x :: re_sub_del_from ic r (N.succ p) 0 s'
                 end
       end
   end.
-Definition re_sub_del (ic : bool) (r : re) (s : list ch) : list ch := re_sub_del_from ic r 0 0 s.
+Definition re_sub_del (ic : bool) (r : re) (s : list ch) : list ch := re_sub_del_from ic r 0%N 0 s.
 
 (* match.group(i): None when the group did not take part *)
-Fixpoint cap_find (i : nat) (c : caps) : option (nat * nat) :=
+Fixpoint cap_find (i : nat) (c : caps) : option (N * N) :=
   match c with
   | [] => None
   | (j, se) :: r => if i =? j then Some se else cap_find i r
   end.
-Definition substr {A} (s : list A) (a b : nat) : list A := firstn (b - a) (skipn a s).
+Definition substr {A} (s : list A) (a b : N) : list A := firstn (N.to_nat (b - a)) (skipn (N.to_nat a) s).
 Definition group {A} (s : list A) (c : caps) (i : nat) : option (list A) :=
   match cap_find i c with Some (a, b) => Some (substr s a b) | None => None end.
 
